@@ -31,6 +31,16 @@ from spec import assoc_e as spec
 
 silence_loggers()
 
+
+def _rng(xs, lo, hi):
+    """all(lo <= x <= hi for x in xs) with early exit (CrossHair's all() does not short-circuit)"""
+    for x in xs:
+        if x < lo:
+            return False
+        if x > hi:
+            return False
+    return True
+
 K = tier(2, 3)            # handler check points per operation
 NC = tier(2, 3)           # C-CANCEL requests
 TS = "1.2.840.10008.1.2"
@@ -210,8 +220,8 @@ def cancel_routing(m1: int, m2: int, slots_: List[int], ids: List[int]) -> bool:
     """
     pre: 0 <= m1 <= 65535 and 0 <= m2 <= 65535
     pre: len(slots_) == NC and len(ids) == NC
-    pre: all(0 <= s < S["N"] for s in slots_) and slots_[0] == shard("first", 0)
-    pre: all(0 <= x <= 65535 for x in ids)
+    pre: _rng(slots_, 0, S["N"] - 1) and slots_[0] == shard("first", 0)
+    pre: _rng(ids, 0, 65535)
     pre: not kf.skip("C23-cancel-before-serve", m1=m1, m2=m2, slots_=slots_, ids=ids)
     post: _ == True
     """
@@ -249,17 +259,20 @@ def cancel_routing(m1: int, m2: int, slots_: List[int], ids: List[int]) -> bool:
 
 # ------------------------------------------------------------------------------------------------
 # Many pending cancels (the collection keeps at most 10).
-N_PENDING = tier(11, 12)
+N_PENDING = tier(12, 14)
 
 
 def _increasing(xs):
-    return all(xs[i] < xs[i + 1] for i in range(len(xs) - 1))
+    for i in range(len(xs) - 1):
+        if not (xs[i] < xs[i + 1]):
+            return False
+    return True
 
 
 @harness(
     "C23",
     timeout=(170, 900),
-    shards=[dict(n=n) for n in (0, 1, 9, 10, 11)] if N_PENDING == 11 else [dict(n=n) for n in range(0, 13)],
+    shards=[dict(n=n) for n in range(0, N_PENDING + 1)],
     functions=["dimse:DIMSEServiceProvider.receive_primitive", "dimse:DIMSEServiceProvider.get_msg",
                "association:Association._run_reactor", "association:Association._serve_request",
                "service_class:ServiceClass._c_find_scp", "service_class:ServiceClass.is_cancelled", "events:Event.is_cancelled"],
@@ -274,7 +287,7 @@ def cancel_limit(m: int, m2: int, ids: List[int]) -> bool:
     """
     pre: 0 <= m <= 65535 and 0 <= m2 <= 65535
     pre: len(ids) == shard("n", 0)
-    pre: all(0 <= x <= 65535 for x in ids) and _increasing(ids)
+    pre: _rng(ids, 0, 65535) and _increasing(ids)
     pre: not kf.skip("C23-cancel-over-limit-dropped", m=m, m2=m2, ids=ids)
     post: _ == True
     """
